@@ -349,6 +349,13 @@ def extra_C06(rep, ctx):
     tables.c06_widths(rep, ctx.facts)
 
 
+def extra_C19(rep, ctx):
+    t = tables.T(rep, ctx.facts)
+    t.scalar(r'format::MAX_FIELDS$', 36, 'largest number of tokens of a picture')
+    e1_obligations(rep, ctx, lambda o: o['kind'] == 'R-inv' and 'Field' in o['desc'])
+    e1_obligations(rep, ctx, lambda o: o['kind'] == 'P-call' and 'StackVec::push' in o['desc'])
+
+
 def extra_C17(rep, ctx):
     graph.delegation(rep, ctx.facts)
 
@@ -357,7 +364,7 @@ def extra_C18(rep, ctx):
     graph.clock_readers(rep, ctx.facts)
 
 
-EXTRA_RULES = {'C06': extra_C06, 'C10': extra_C10, 'C11': extra_C11, 'C15': extra_C15, 'C17': extra_C17, 'C18': extra_C18}
+EXTRA_RULES = {'C19': extra_C19, 'C06': extra_C06, 'C10': extra_C10, 'C11': extra_C11, 'C15': extra_C15, 'C17': extra_C17, 'C18': extra_C18}
 
 PROPS = {
     'C01': prop_tables('C01', lambda rep, ctx: tables.c01_tables(rep, ctx.facts),
@@ -376,6 +383,7 @@ PROPS = {
     'C16': prop_contracts('C16', 'whole-second congruence and floor characterisation of every Oracle-style date producer'),
     'C17': prop_contracts('C17', 'mixed comparisons compare the converted counts with the receiver on the left; Timestamp/OracleDate units delegate to the same trait item (resolved callee identity)'),
     'C06': prop_contracts('C06', 'writer/reader agreement (necessary conditions of the round trip): per type and token both sides accept or both reject; field widths of the reader equal what the writer can emit'),
+    'C19': prop_contracts('C19', 'per-token contract on every exit path of the picture lexer (arbitrary input, arbitrary position): sound, complete with longest match for every documented spelling and letter case, name style from the first two letters, blank runs reproduced with their length; try_new accepts up to 36 tokens'),
     'C14': prop_contracts('C14', 'decision list of the float scaling functions on every exit state: zero test before dividing, infinite -> overflow, NaN -> invalid, own gate, product/quotient cast without rounding'),
     'C15': prop_contracts('C15', 'checked binary decoding (gate on the payload), channel agreement, static formatter identity and literal, buffer capacity'),
     'C18': prop_contracts('C18', 'who reads the clock (call graph), one reading per now()/conversion, chrono fields flow to the matching gate arguments'),
